@@ -104,6 +104,7 @@ type global struct {
 	haveBatch bool
 	batchFast bool
 	hang      time.Duration
+	budget    time.Duration
 
 	mu       sync.Mutex
 	viol     map[string]*vrec
@@ -773,7 +774,7 @@ func (g *global) explore(u *Universe, uidx int) {
 		wg.Wait()
 		if stop.Load() {
 			exhaustive = false
-			g.noteNotExhaustive(u.Name + ": internal deadline reached")
+			g.noteNotExhaustive(u.Name + ": wall budget of the tier reached")
 			break
 		}
 		expanded += len(level)
@@ -868,7 +869,7 @@ func (ex *explorer) chains() {
 			defer wg.Done()
 			for {
 				i := int(atomic.AddInt64(&next, 1) - 1)
-				if i >= len(targets) || g.run.Expired() {
+				if i >= len(targets) || g.run.Expired() || time.Since(g.t0) > g.budget {
 					break
 				}
 				var path []*state
